@@ -17,8 +17,16 @@ from . import Grid
 from .datatypes import Quantity, Coordinate, Ref, Bin, Uri, \
     MARKER, NA, REMOVE, XStr
 from .jsonparser import MARKER_STR, NA_STR, REMOVE2_STR, REMOVE3_STR
-from .version import LATEST_VER, VER_3_0
+from .version import LATEST_VER, VER_3_0, Version
 from .zoneinfo import timezone_name
+
+
+def _pre_3_0(version):
+    """
+    True if the given version is handled with the pre-3.0 rules, that is the
+    same decision Grid and the parsers take (nearest official version).
+    """
+    return Version.nearest(version) < VER_3_0
 
 
 def dump_grid(grid):
@@ -78,12 +86,12 @@ def dump_scalar(scalar, version=LATEST_VER):
     elif scalar is MARKER:
         return MARKER_STR
     elif scalar is NA:
-        if version < VER_3_0:
+        if _pre_3_0(version):
             raise ValueError('Project Haystack %s ' \
                              'does not support NA' % version)
         return NA_STR
     elif scalar is REMOVE:
-        if version < VER_3_0:
+        if _pre_3_0(version):
             return REMOVE2_STR
         else:
             return REMOVE3_STR
@@ -98,6 +106,9 @@ def dump_scalar(scalar, version=LATEST_VER):
     elif isinstance(scalar, Bin):
         return dump_bin(scalar, version=version)
     elif isinstance(scalar, XStr):
+        if _pre_3_0(version):
+            raise ValueError('Project Haystack %s ' \
+                             'does not support XStr' % version)
         return dump_xstr(scalar, version=version)
     elif isinstance(scalar, Uri):
         return dump_uri(scalar, version=version)
@@ -118,6 +129,9 @@ def dump_scalar(scalar, version=LATEST_VER):
             isinstance(scalar, int):
         return dump_decimal(scalar, version=version)
     elif isinstance(scalar, Grid):
+        if _pre_3_0(version):
+            raise ValueError('Project Haystack %s ' \
+                             'does not support nested grids' % version)
         return _dump_grid_to_json(scalar)
     else:  # pragma: no cover
         raise NotImplementedError('Unhandled case: %r' % scalar)
@@ -194,14 +208,14 @@ def dump_date_time(date_time, version=LATEST_VER):
 
 
 def dump_list(lst, version=LATEST_VER):
-    if version < VER_3_0:
+    if _pre_3_0(version):
         raise ValueError('Project Haystack %s ' \
                          'does not support lists' % version)
     return list(map(functools.partial(dump_scalar, version=version), lst))
 
 
 def dump_dict(dic, version=LATEST_VER):
-    if version < VER_3_0:
+    if _pre_3_0(version):
         raise ValueError('Project Haystack %s ' \
                          'does not support dict' % version)
     return {k: dump_scalar(v, version=version) for (k, v) in dic.items()}
